@@ -116,6 +116,10 @@ func (eng *Engine) verifyFunction(f *ssa.Function, ct *Contract) (res *FuncResul
 	env := fr.newEnv(exit, fc.entry)
 	env.bindResults(f.Signature, results)
 	for i, cl := range ct.ensures {
+		if cl.kind == "axiom" {
+			fc.trusted[ct.pkgPath+"::"+ct.key+" (axiom: "+cl.text+")"] = true
+			continue
+		}
 		nm := fmt.Sprintf("%s#post.%d", name, i+1)
 		if cl.label != "" {
 			nm = fmt.Sprintf("%s#post.%s", name, cl.label)
@@ -137,7 +141,10 @@ func (eng *Engine) verifyFunction(f *ssa.Function, ct *Contract) (res *FuncResul
 		fc.oblige(nm, "post", cl.ids, exit.pc, g, cl, "postcondition: "+cl.text)
 	}
 	// frame
-	if ct.hasAssgn && !ct.noframe {
+	if ct.hasAssgn && ct.noframe {
+		fc.trusted[ct.pkgPath+"::"+ct.key+" (frame not checked: noframe)"] = true
+	}
+	if ct.hasAssgn && !ct.noframe && !ct.inferRest { // 'inferred' frames are whatever the body writes
 		eng.frameObligations(fr, fc, ct, exit, env0, name)
 	}
 	ids := eng.topIDs()
